@@ -149,8 +149,22 @@ def shifted(B, k):
     return c12.transform_prim(B, G)
 
 
-def enumerate_states(names=None, shifts=True):
+MORE_SHIFTS = [np.array(v, dtype=float) * 1.25 for v in __import__("itertools").product((-1, 0, 1), repeat=3) if any(v)]
+
+
+def enumerate_states(names=None, shifts=True, thorough=False):
     states = []
+    if thorough:
+        # every function, 11 + 26 translated copies of the second primitive
+        global SHIFTS
+        if len(SHIFTS) < 30:
+            SHIFTS = SHIFTS + MORE_SHIFTS
+        for name in (names or all_names()):
+            ka, kb = FUNCS.get(name, VARIANTS.get(name))
+            for i in range(len(alph(ka))):
+                for k in range(len(SHIFTS)):
+                    states.append({"fn": name, "i": i, "shift": k})
+        return states
     for name in (names or all_names()):
         ka, kb = FUNCS.get(name, VARIANTS.get(name))
         for i in range(len(alph(ka))):
